@@ -351,16 +351,22 @@ def run_guarded(exe, lines, budget=BUDGET_S, env=None, wrap=None, margin=3.0):
         buf = b''
         got = 0
         status = 'ok'
+        t_line = time.time()            # when the previous answer was complete
         while got < len(chunk):
-            r, _, _ = select.select([fd], [], [], budget + margin)
-            if not r:
+            # the budget is per request: an answer that trickles in (a multi-gigabyte padded line through a
+            # 64 KiB pipe) must not keep the check alive - no data, too slow and too big are all 'timeout'
+            left = budget + margin - (time.time() - t_line)
+            r = select.select([fd], [], [], left)[0] if left > 0 else []
+            if not r or len(buf) > (64 << 20):
                 status = 'timeout'
                 break
-            b = os.read(fd, 1 << 20)
+            b = os.read(fd, 1 << 22)
             if not b:
                 status = 'crash'
                 break
             buf += b
+            if b'\n' in b:
+                t_line = time.time()
             while b'\n' in buf:
                 ln, buf = buf.split(b'\n', 1)
                 t = ln.decode('ascii', 'replace').split(' ', 1)
